@@ -380,3 +380,47 @@ func TestC09Regress(t *testing.T) {
 		t.Fatalf("F6(b): %v", err)
 	}
 }
+
+// F14: Next() called again on an iterator whose first location chunk could
+// not be read must return an error, not panic.
+func TestC19RegressRetry(t *testing.T) {
+	ctx := &Ctx{}
+	defer ctx.Close()
+	b := Batch{{}, {Fields: []Field{{Name: "title", Len: 5, Terms: []Term{{T: "\x00", Freq: 3, Locs: []Loc{{Pos: 0, Start: 1, End: 128}, {Field: "title", Pos: 2, Start: 128}}}, {T: "b", Freq: 2}}}}},
+		{Fields: []Field{{Name: "title", Len: 1, Terms: []Term{{T: "\x00", Freq: 1, Locs: []Loc{{Pos: 0, Start: 1, End: 300}}}}}}}}
+	bs, err := Persist(mustBuild(t, b, 7))
+	if err != nil {
+		t.Fatal(err)
+	}
+	f, err := ctx.writeTemp(bs)
+	if err != nil {
+		t.Fatal(err)
+	}
+	o := rop{kind: 1, field: "title", term: "\x00"}
+	// count the reads of a fault-free walk, then fail from every read index on
+	d, fr, err := faultData(f)
+	if err != nil {
+		t.Fatal(err)
+	}
+	seg, err := ice.Load(d)
+	if err != nil {
+		t.Fatal(err)
+	}
+	fr.arm(-1)
+	if _, err := o.run(&ropEnv{seg: seg, dvr: map[string]segment.DocumentValueReader{}}); err != nil {
+		t.Fatal(err)
+	}
+	total := fr.calls.Load()
+	for k := int64(0); k <= total; k++ {
+		d, fr, _ := faultData(f)
+		seg, err := ice.Load(d)
+		if err != nil {
+			t.Fatal(err)
+		}
+		fr.arm(k)
+		_, err = o.run(&ropEnv{seg: seg, dvr: map[string]segment.DocumentValueReader{}})
+		if isPanic(err) {
+			t.Fatalf("F14: storage failing from read #%d on: %v", k, err)
+		}
+	}
+}
